@@ -208,6 +208,14 @@ class Ref(object):
         finally:
             self.blocks.pop()
 
+    def note_reexecution(self, s, where):
+        if where is None:
+            return
+        seen = self.events.setdefault('_seen', {})
+        seen[id(s)] = seen.get(id(s), 0) + 1
+        if seen[id(s)] == 2:
+            self.events['select-where-executed-again'] = self.events.get('select-where-executed-again', 0) + 1
+
     def navigate_steps(self, v, steps):
         sh = self.shadow
         if isinstance(v, list):
@@ -294,6 +302,7 @@ class Ref(object):
                 fn(x, y, rel, ph)
         elif k == 'select_from':
             _, card, var, kind, where = s
+            self.note_reexecution(s, where)
             c = self.candidates(list(sh.extent[kind.upper()]), where, card != 'many', 'select-from')
             if card == 'many':
                 self.store(var, [('inst', h) for h in c])
@@ -301,6 +310,7 @@ class Ref(object):
                 self.store(var, ('inst', c[0]) if c else None)
         elif k == 'select_related':
             _, card, var, handle, steps, where = s
+            self.note_reexecution(s, where)
             cur = self.navigate_steps(self.ev(handle), steps)
             c = self.candidates(cur, where, card != 'many', 'select-related')
             if card == 'many':
@@ -596,6 +606,34 @@ class ProgGen(object):
             return un(r.choice(('empty', 'not_empty')), var(r.choice(c)[0]))
         return lit(r.random() < 0.5)
 
+    def where_expr(self, selected_kind):
+        '''
+        a where clause; often the classic lookup form  selected.<attr> == <expression without selected>
+        whose right side reads a variable or an attribute of a (loop) variable, so that it changes from
+        one execution of the statement to the next
+        '''
+        r = self.rng
+        if r.random() < 0.4:
+            ty = r.choice((INT, INT, STR, BOOL))
+            at = self.attrs(selected_kind, ty)
+            if at:
+                left = attr(selected(), r.choice(at))
+                right = None
+                src = self.inst_expr()
+                if src and r.random() < 0.5:
+                    n, t = r.choice(src)
+                    at2 = self.attrs(t[1], ty)
+                    if at2:
+                        right = attr(var(n), r.choice(at2))
+                if right is None:
+                    vs = self.vars_of(lambda t: t == ty)
+                    right = var(r.choice(vs)[0]) if vs and r.random() < 0.7 else self.expr(ty, 1)
+                self.stats['lookup-where'] = self.stats.get('lookup-where', 0) + 1
+                if r.random() < 0.8:
+                    return bin_('==', left, right)
+                return bin_('==', right, left)
+        return self.expr(BOOL, 2, selected_kind=selected_kind)
+
     # -- statements -----------------------------------------------------------------
     def nav_steps(self, kind, maxlen=3):
         r = self.rng
@@ -668,7 +706,7 @@ class ProgGen(object):
             card = r.choice(('any', 'many'))
             where = None
             if 'where' in f and r.random() < 0.5:
-                where = self.expr(BOOL, 2, selected_kind=kind)
+                where = self.where_expr(kind)
             name = self.fresh('s' if card == 'many' else 'i')
             ty = ('set', kind) if card == 'many' else ('inst', kind)
             return select_from(card, name, kind, where), [(name, ty)]
@@ -698,7 +736,7 @@ class ProgGen(object):
                 card = 'any'
             where = None
             if 'where' in f and r.random() < (0.7 if wide else 0.4):
-                where = self.expr(BOOL, 2, selected_kind=end)
+                where = self.where_expr(end)
             name = self.fresh('s' if card == 'many' else 'i')
             ty = ('set', end) if card == 'many' else ('inst', end)
             return select_related(card, name, var(n), steps, where), [(name, ty)]
